@@ -317,9 +317,15 @@ def _build(spec, hook, _ctr):
         if spec[1] is None:
             return schema.dict
         keys = {}
-        for key, opt, sub in spec[1]:
+        n = len(spec[1])
+        # spec[2]: False = strict; True / "last" = ...: ... after the keys; "first" / "mid" = marker placed earlier
+        if spec[2] == "first":
+            keys[...] = ...
+        for i, (key, opt, sub) in enumerate(spec[1]):
+            if spec[2] == "mid" and i == (n + 1) // 2:
+                keys[...] = ...
             keys[optional(key) if opt else key] = build(sub, hook, _ctr)
-        if spec[2]:
+        if spec[2] and ... not in keys:
             keys[...] = ...
         return schema.dict(keys)
     if k == "any":
@@ -1628,6 +1634,8 @@ def hashseed_outputs(expr, ints, chars, seeds=(0, 1, 2, 3, 4, 5, 6, 7)):
         env = dict(_os.environ)
         env["PYTHONHASHSEED"] = str(hs)
         env.pop("PYTHONPATH", None)
+        if _os.environ.get("VERIF_REPO"):
+            env["PYTHONPATH"] = _os.environ["VERIF_REPO"]
         code = _DIFF_SCRIPT % dict(engine=_os.path.dirname(_os.path.abspath(__file__)), ints=tuple(ints), chars=tuple(chars), expr=expr)
         cp = _subprocess.run([sys.executable, "-c", code], capture_output=True, text=True, env=env, timeout=120)
         outs.append(cp.stdout.strip() if cp.returncode == 0 else "ERR:" + cp.stderr.strip()[-200:])
